@@ -109,6 +109,55 @@ def run(tier, rng, C):
                 cases.append({'id': pid, 'line': G.inv_line(pid, probe, G.op_node('probe')), 'show': G.show_inv(probe, 'node probe'),
                               'nontrivial': True, 'kind': 'probe', 'want': 'class:' + '/'.join(sc[cname]), 'cname': cname})
 
+    # symlinked directories are followed: below classes/ and nodes/ a link to a directory contributes the files of
+    # its target under the link's own name (also when the link is named like a YAML file)
+    for i in range(40 if tier == 'quick' else 1200):
+        inv = G.Inv()
+        inv.compose = rng.random() < 0.6
+        real = {('real', 'c.yml'): 'file', ('real', 'sub', 'd.yaml'): 'file', ('real', 'sub', 'init.yml'): 'file', ('top.yml',): 'file'}
+        if rng.random() < 0.5:
+            real[('real', 'e.f.yml')] = 'file'
+        lname = rng.choice(['lnk', 'lnk', '_l', 'l.k', 'conf.yml'])
+        ctree = dict(real)
+        files = to_files(real, 'class')
+        files[(lname,)] = ('link', 'real')
+        for pth in sorted(real):
+            if pth[0] == 'real':
+                q = (lname,) + pth[1:]
+                ctree[q] = 'file'
+                files[q] = ('virt', files[pth])
+        inv.classes = files
+        nreal = {('grp', 'n1.yml'): 'file', ('grp', 'deep', 'n2.yml'): 'file', ('solo.yml',): 'file'}
+        ntree = dict(nreal)
+        nfiles = to_files(nreal, 'node')
+        if inv.compose or rng.random() < 0.3:
+            # (without composition the linked copies carry the same basenames: a collision, reported as such)
+            nl = rng.choice(['g2', '_g', 'g.2'])
+            nfiles[(nl,)] = ('link', 'grp')
+            for pth in sorted(nreal):
+                if pth[0] == 'grp':
+                    q = (nl,) + pth[1:]
+                    ntree[q] = 'file'
+                    nfiles[q] = ('virt', nfiles[pth])
+        inv.nodes = nfiles
+        cid = C.case_id('s', i)
+        cases.append({'id': cid, 'line': G.inv_line(cid, inv, 'names'), 'show': G.show_inv(inv, 'names'), 'nontrivial': True, 'kind': 'names'})
+        meta[cid] = (ctree, ntree, inv.compose)
+        sc = spec_names(ctree, 'class', True)
+        sn = spec_names(ntree, 'node', inv.compose)
+        if isinstance(sc, dict) and isinstance(sn, dict):
+            probe = G.Inv()
+            probe.__dict__.update(inv.__dict__)
+            probe.nodes = dict(inv.nodes)
+            cname = rng.choice(sorted(k for k in sc if k.split('.')[0] == lname.split('.')[0] or k.startswith(lname)) or sorted(sc))
+            if cname and not cname.startswith('.') and 'probe' not in sn:
+                probe.nodes[('probe.yml',)] = G.doc([cname], [], ('m', []))
+                pid = C.case_id('q', i)
+                tgt = sc[cname]
+                want = ('real',) + tgt[1:] if tgt[0] == lname else tgt
+                cases.append({'id': pid, 'line': G.inv_line(pid, probe, G.op_node('probe')), 'show': G.show_inv(probe, 'node probe'),
+                              'nontrivial': True, 'kind': 'probe', 'want': 'class:' + '/'.join(want), 'cname': cname})
+
     def oracle(cases, mobs, iobs):
         fails = []
         for c in cases:
@@ -181,5 +230,5 @@ def run(tier, rng, C):
     rule = ('%d pairs of random directory trees (depth <= 3; file names with dots, both extensions, init files, hidden files, '
             'stray files, upper-case extension; directories with dots, underscore prefix, and directories named *.yml) under both '
             'settings of node-name composition; observations: discovered node/class maps, collision errors, and a probe node '
-            'including a discovered class and reading the marker parameter of the file; oracle = Python reading of the naming rule' % n)
+            'including a discovered class and reading the marker parameter of the file; plus trees with symlinked directories below classes/ and nodes/; oracle = Python reading of the naming rule' % n)
     return C.standard_run(cases, rule, key_fn=lambda c, m, i, r: 'model-impl-differ', extra_oracle=oracle)
